@@ -441,6 +441,16 @@ class LoopBase(Task):
     def alpha_tick(self, ops):
         """The storage coefficient field changes in place between steps."""
         g = self.g
+        if isinstance(self.alpha, str) and self.alpha in g.w.ents and g.rng.random() < 0.12:
+            # the storage field is itself advanced by an explicit step and taken
+            # over with update_value (source shares its BC object)
+            tmp = g.fresh("v")
+            ops.append({"k": "explicit", "out": tmp, "outb": g.fresh("b"),
+                        "a": {"v": self.alpha, "dt": g.r(0.01, 0.2, 3),
+                              "rhs": {"d": "rand", "lo": 0.1, "hi": 1.0, "s": g.seed()}}})
+            ops.append({"k": "val_edit", "a": {"v": self.alpha, "how": "update", "src": tmp}})
+            ops.append({"k": "drop", "a": {"names": [tmp]}})
+            return
         if isinstance(self.alpha, str) and self.alpha in g.w.ents and g.rng.random() < 0.35:
             how = g.rng.choice(("assign", "imul", "slice"))
             a = {"v": self.alpha, "how": how, "sl": g.slspec(3)}
@@ -727,6 +737,10 @@ class ValueEditor(Task):
         elif how == "update":
             m = g.mesh_of(v)
             src = g.pick("v", lambda e: e.meta["mesh"] == m and e.name != v)
+            if rng.random() < 0.4:
+                # prefer a source that shares the target's BC object (explicit results do)
+                bb = g.w.ents[v].meta["bc"]
+                src = g.pick("v", lambda e: e.meta["bc"] == bb and e.name != v) or src
             if src is None:
                 return []
             a["src"] = src
